@@ -1180,7 +1180,8 @@ class PseudoNetCDFFile(PseudoNetCDFSelfReg, object):
             vals = vv[...]
             if where is not None:
                 if (
-                    maskdims == vv.dimensions or
+                    (maskdims is not None and
+                     tuple(maskdims) == tuple(vv.dimensions)) or
                     (
                         maskdims is None and
                         where.shape == vals.shape
